@@ -13,4 +13,32 @@ CHECKS = {
                 'renderings of the sources; constraints are enforced at instantiation and well-formedness at construction (decided under C01).',
         'design_ref': 'DESIGN.md section 3, C06; section 2.1',
     },
+    'C01': {
+        'level': 'other',
+        'technique': 'MIR path analysis: minting confinement, guard-on-every-path, capture-guard rule, constraint-check pairing, per-arm soundness tables',
+        'text': 'Decides the structural obligations of the rule-induction proof of soundness on the Rust checker, on all paths of rustc MIR: '
+                'Proved terms are minted only in rule arms with the rule conclusion as payload; every side condition (MP antecedent, '
+                'Generalization freshness, claim equality, well-formedness of Mu/ESubst/SSubst) holds on every path to the push; substitution '
+                'never descends under a binder without the capture check of that binder sort; a metavariable is replaced only after its '
+                'constraint lists were checked with the judgement of the same name; axiom constants equal the schemas; judgement arms are '
+                'sound. Validity in finite models is not evaluated - that quantifier is out of reach of a static argument; what is decided '
+                'is every code-level way the induction can fail.',
+        'note': 'Trusted: soundness of the matching-logic proof system and the induction; spec tables sa/spec/{axioms,machine,judgements,'
+                'substitution}.py; rustc MIR as rendering of lib.rs. Level "other": necessary structural obligations, not a semantic proof.',
+        'design_ref': 'DESIGN.md section 3, C01',
+    },
+    'C05': {
+        'level': 'other',
+        'technique': 'MIR decision functions equivalent to the transcribed document; opcode-row table comparison; must-be-checked reads',
+        'text': 'Arm-by-arm conformance with the documented machine: 46 judgement/well-formedness arms are equivalent on all valuations to '
+                'the pseudocode of docs/proof-language.md; each of the 24 implemented opcodes has exactly the documented operand reads, '
+                'pops (order and Term kind), side conditions and pushes; unimplemented opcodes and unknown bytes panic; every operand / '
+                'stack / claim read has a rejecting branch and the instruction iterator is advanced only by next(); no unsafe; verify runs '
+                'the three phases over one state and accepts only with no claim left; substitution/instantiation arms equal the textbook '
+                'table. Any per-arm deviation changes acceptance on some byte string, which sampling finds only by luck. Final-state '
+                'equality on concrete inputs is not observed.',
+        'note': 'Trusted: the transcription of the document in sa/spec/ (the prose is not parsed), rustc MIR, std semantics of '
+                'Option::expect/unwrap/?/Vec::pop.',
+        'design_ref': 'DESIGN.md section 3, C05',
+    },
 }
